@@ -114,8 +114,10 @@ def make_rule(prop: str):
                 ref = mt[qn]
                 nf += 1
                 if ref.get("digest") == normalize.digest(fi.node):
+                    ctx.count("functions identical to their reference form (nothing to compare)")
                     continue        # unchanged
                 if ctx.function_status(fi.where) == "rewritten":
+                    ctx.count("functions rewritten since the reference tree (not compared clause by clause)")
                     continue        # a rewritten function is not comparable clause by clause
                 now_q = normalize.quantifier_sites(fi.node)
                 for q, neg, arg in ref.get("quants", []):
